@@ -428,6 +428,9 @@ done:
 		 * (a FAIL verdict, i.e. "the signature is invalid", caused by an allocation failure is a wrong result) */
 		res = PSEUDO_INCONCLUSIVE;
 		g_inconclusive_code = (int)r->finalResult.errorCode;
+		/* ... unless the verdict itself says that memory ran out: the library knew, and the documented way to say so is the return code
+		 * (out of memory is on its list of fatal errors, which are returned and not turned into a verdict) */
+		if (r->finalResult.status == KSI_OUT_OF_MEMORY) out_fmt("KSI_OK with an inconclusive verdict whose recorded status is KSI_OUT_OF_MEMORY");
 	} else if (res == KSI_OK) { if (r) out_fmt("verdict:%d:%x", (int)r->finalResult.resultCode, (int)r->finalResult.errorCode); else out_fmt("verdict:none"); }
 	KSI_PolicyVerificationResult_free(r);
 	return res;
